@@ -14,7 +14,11 @@ THEOREMS = [("FlatModel.Props.C06Opt", t) for t in (
     "FC.C06.accepts_known", "FC.C06.index_of_denotes", "FC.C06.push_coded", "FC.C06.roundtrip_coded", "FC.C06.frame_coded",
     "FC.C06.roundtrip_coded_all", "FC.C06.roundtrip_after_merge", "FC.C06.createFrom_ok", "FC.Huff.push_appends",
     "FC.Huff.frame_bits", "FC.Huff.decode_spec", "FC.Huff.chunks_spec", "FC.Huff.createFrom_tableOK", "FC.Huff.walk_sound")] + [
-    ("FlatModel.Props.C06", t) for t in ("FC.C06.createFrom_good", "FC.C06.roundtrip_merged", "FC.Huff.canonBits_eq_bitsOfCode")]
+    ("FlatModel.Props.C06", t) for t in ("FC.C06.createFrom_good", "FC.C06.roundtrip_merged", "FC.Huff.canonBits_eq_bitsOfCode")] + [
+    ("FlatModel.Props.C06Region", t) for t in ("FC.C06.roundtrip", "FC.C06.roundtrip_u8", "FC.C06.refused", "FC.C06.frame", "FC.C06.frame_u8",
+                                                "FC.C06.stats_valid", "FC.C06.merged_stats_valid", "FC.C06.merge_inv", "FC.C06.merge_inv_built",
+                                                "FC.C06.built_inv", "FC.C06.accepts_merged")]
+LEAN_TARGETS = ["FlatModel.Generated.Covered"]
 PROFILES = {"quick": ["checked", "wrapping"], "thorough": ["checked", "wrapping"], "search": ["checked", "wrapping"]}
 RULE = ("frequency profiles (1 symbol, equal counts, Fibonacci counts forcing 9..20-bit codes, near-uniform 2..17 symbols, "
         "257..600 equiprobable u16 symbols, all profiles over <=3 symbols with counts <=3) x item sequences covering every "
